@@ -197,6 +197,7 @@ pub fn read_all(env: &Env) -> Result<std::collections::BTreeMap<String, LTree>, 
     let snaps = repo
         .get_all_snapshots()
         .map_err(|e| format!("get_all_snapshots: {}", e.display_log()))?;
+    snapshot_count_agrees(env, snaps.len())?;
     let mut out = std::collections::BTreeMap::new();
     for s in snaps {
         let t = read_snapshot(&repo, &s).map_err(|e| format!("snapshot {}: {e}", s.label))?;
@@ -205,6 +206,17 @@ pub fn read_all(env: &Env) -> Result<std::collections::BTreeMap<String, LTree>, 
         }
     }
     Ok(out)
+}
+
+/// A listing of all snapshots which succeeds must cover every snapshot file the store holds: a file
+/// which cannot be read has to make the listing fail, not shrink it.
+pub fn snapshot_count_agrees(env: &Env, returned: usize) -> Result<(), String> {
+    let stored = env.store().ids(rustic_core::FileType::Snapshot).len();
+    if stored == returned {
+        Ok(())
+    } else {
+        Err(format!("listing snapshots: the store holds {stored} snapshot files but get_all_snapshots returned {returned} snapshots without an error"))
+    }
 }
 
 /// run check(read_data); returns the list of error messages (empty = clean)
